@@ -47,6 +47,7 @@ Definition kind_of (x : stdval) : skind :=
   match x with
   | SOrdered _ _ => KOrdered | SDeque _ _ _ => KDeque | SDefault _ _ _ _ => KDefault | SCounter _ _ _ => KCounter
   | SChain _ _ => KChain | SProxy _ _ _ => KProxy | SExc _ _ => KExc | SPartial _ _ _ _ => KPartial
+  | SUuid _ _ => KUuid | SNamespace _ _ _ => KNamespace | SNamedtuple _ _ => KNamedtuple
   end.
 
 (** the invariants CPython maintains for the objects themselves *)
@@ -62,12 +63,13 @@ Definition canon (x : stdval) : stdval :=
   match x with
   | SChain c [] => SChain c [([], [])]
   | SChain c [([], _)] => SChain c [([], [])]
+  | SNamespace c attrs o => SNamespace c (reorder attrs o) []     (* attribute order is not part of a namespace *)
   | _ => x
   end.
 
 Theorem std_rebuild_print x : std_ok x -> std_rebuild keq (kind_of x) (std_print x) = Some (canon x).
 Proof.
-  destruct x as [c kvs|c els ml|c f kvs o|c mc o|c maps|c kvs o|c args|c f args kws]; intros Hok;
+  destruct x as [c kvs|c els ml|c f kvs o|c mc o|c maps|c kvs o|c args|c f args kws|c text|c attrs o|c fields]; intros Hok;
     cbn [std_ok kind_of std_print canon] in *.
   - cbn [std_rebuild]. rewrite untuples_pairs. cbn [option_map]. now rewrite from_pairs_distinct.
   - destruct ml as [m|]; cbn [std_rebuild]; [|reflexivity].
@@ -80,6 +82,9 @@ Proof.
       rewrite ?undicts_dicts; reflexivity.
   - reflexivity.
   - destruct args; reflexivity.
+  - reflexivity.
+  - reflexivity.
+  - reflexivity.
   - reflexivity.
 Qed.
 
